@@ -2,6 +2,8 @@
 
 package smf
 
+import "gitlab.com/gomidi/midi/v2"
+
 // Contracts for the deductive verifier in /verif (govc). The //@ lines are read by the verifier; functions
 // named verif* are proof harnesses (lemmas over the contracts), compiled only with -tags verif.
 
@@ -574,5 +576,433 @@ func verifInverseMetaTrackSequenceNameLong(s string) (ok bool, out string) {
 //@ func (Message).GetMetaSeqData
 //@ modifies *bt
 //@ ensures [P:C08] result ==> smfTypeOf(len(m), m[0], m[1]) == MetaSeqDataMsg
+//@ ensures [P:C15] (m[0] == 0xFF && m[1] == 0x7F && vlqEnds5(arr(m), 2, 1) && len(m) == 3 + int(vlqDec(arr(m), 2, 1)) && int(vlqDec(arr(m), 2, 1)) >= 1) ==> result
+//@ ensures [P:C15] (m[0] == 0xFF && m[1] == 0x7F && vlqEnds5(arr(m), 2, 2) && len(m) == 4 + int(vlqDec(arr(m), 2, 2)) && int(vlqDec(arr(m), 2, 2)) >= 1) ==> result
 //@ ensures [P:C15] result && bt != nil ==> seqAt(m, 1, bt)
 //@ ensures [P:C15] result && bt != nil ==> seqAt(m, 2, bt)
+
+// verifInverseMetaSequencerDataShort: GetMetaSeqData(MetaSequencerData(d)) == d  (len(d) >= 1 && len(d) < 128)
+func verifInverseMetaSequencerDataShort(d []byte) (ok bool, out []byte) {
+	m := MetaSequencerData(d)
+	verifLemmaVlq(m, 2, uint32(len(d)))
+	verifLemmaLen(len(d))
+	ok = m.GetMetaSeqData(&out)
+	return
+}
+
+//@ func verifInverseMetaSequencerDataShort
+//@ requires len(d) >= 1 && len(d) < 128
+//@ ensures [P:C15] ok
+//@ ensures [P:C15] len(out) == len(d)
+//@ ensures [P:C15] forall i int :: 0 <= i && i < len(d) ==> out[i] == d[i]
+
+// verifInverseMetaSequencerDataLong: GetMetaSeqData(MetaSequencerData(d)) == d  (len(d) >= 128 && len(d) < 16384)
+func verifInverseMetaSequencerDataLong(d []byte) (ok bool, out []byte) {
+	m := MetaSequencerData(d)
+	verifLemmaVlq(m, 2, uint32(len(d)))
+	verifLemmaLen(len(d))
+	ok = m.GetMetaSeqData(&out)
+	return
+}
+
+//@ func verifInverseMetaSequencerDataLong
+//@ requires len(d) >= 128 && len(d) < 16384
+//@ ensures [P:C15] ok
+//@ ensures [P:C15] len(out) == len(d)
+//@ ensures [P:C15] forall i int :: 0 <= i && i < len(d) ==> out[i] == d[i]
+
+// ---- the 26 named key constructors: tonic, number of accidentals, mode and flat/sharp flag as the circle of
+// fifths gives them (oracle table written from music theory, not from key.go)
+
+func verifKeyCMaj() (ok bool, k Key) {
+	m := CMaj()
+	ok = m.GetMetaKey(&k)
+	return
+}
+
+//@ func verifKeyCMaj
+//@ ensures [P:C15] ok && k.Key == 0 && k.Num == 0 && k.IsMajor == true && k.IsFlat == false
+
+func verifKeyGMaj() (ok bool, k Key) {
+	m := GMaj()
+	ok = m.GetMetaKey(&k)
+	return
+}
+
+//@ func verifKeyGMaj
+//@ ensures [P:C15] ok && k.Key == 7 && k.Num == 1 && k.IsMajor == true && k.IsFlat == false
+
+func verifKeyDMaj() (ok bool, k Key) {
+	m := DMaj()
+	ok = m.GetMetaKey(&k)
+	return
+}
+
+//@ func verifKeyDMaj
+//@ ensures [P:C15] ok && k.Key == 2 && k.Num == 2 && k.IsMajor == true && k.IsFlat == false
+
+func verifKeyAMaj() (ok bool, k Key) {
+	m := AMaj()
+	ok = m.GetMetaKey(&k)
+	return
+}
+
+//@ func verifKeyAMaj
+//@ ensures [P:C15] ok && k.Key == 9 && k.Num == 3 && k.IsMajor == true && k.IsFlat == false
+
+func verifKeyEMaj() (ok bool, k Key) {
+	m := EMaj()
+	ok = m.GetMetaKey(&k)
+	return
+}
+
+//@ func verifKeyEMaj
+//@ ensures [P:C15] ok && k.Key == 4 && k.Num == 4 && k.IsMajor == true && k.IsFlat == false
+
+func verifKeyBMaj() (ok bool, k Key) {
+	m := BMaj()
+	ok = m.GetMetaKey(&k)
+	return
+}
+
+//@ func verifKeyBMaj
+//@ ensures [P:C15] ok && k.Key == 11 && k.Num == 5 && k.IsMajor == true && k.IsFlat == false
+
+func verifKeyFsharpMaj() (ok bool, k Key) {
+	m := FsharpMaj()
+	ok = m.GetMetaKey(&k)
+	return
+}
+
+//@ func verifKeyFsharpMaj
+//@ ensures [P:C15] ok && k.Key == 6 && k.Num == 6 && k.IsMajor == true && k.IsFlat == false
+
+func verifKeyFMaj() (ok bool, k Key) {
+	m := FMaj()
+	ok = m.GetMetaKey(&k)
+	return
+}
+
+//@ func verifKeyFMaj
+//@ ensures [P:C15] ok && k.Key == 5 && k.Num == 1 && k.IsMajor == true && k.IsFlat == true
+
+func verifKeyBbMaj() (ok bool, k Key) {
+	m := BbMaj()
+	ok = m.GetMetaKey(&k)
+	return
+}
+
+//@ func verifKeyBbMaj
+//@ ensures [P:C15] ok && k.Key == 10 && k.Num == 2 && k.IsMajor == true && k.IsFlat == true
+
+func verifKeyEbMaj() (ok bool, k Key) {
+	m := EbMaj()
+	ok = m.GetMetaKey(&k)
+	return
+}
+
+//@ func verifKeyEbMaj
+//@ ensures [P:C15] ok && k.Key == 3 && k.Num == 3 && k.IsMajor == true && k.IsFlat == true
+
+func verifKeyAbMaj() (ok bool, k Key) {
+	m := AbMaj()
+	ok = m.GetMetaKey(&k)
+	return
+}
+
+//@ func verifKeyAbMaj
+//@ ensures [P:C15] ok && k.Key == 8 && k.Num == 4 && k.IsMajor == true && k.IsFlat == true
+
+func verifKeyDbMaj() (ok bool, k Key) {
+	m := DbMaj()
+	ok = m.GetMetaKey(&k)
+	return
+}
+
+//@ func verifKeyDbMaj
+//@ ensures [P:C15] ok && k.Key == 1 && k.Num == 5 && k.IsMajor == true && k.IsFlat == true
+
+func verifKeyGbMaj() (ok bool, k Key) {
+	m := GbMaj()
+	ok = m.GetMetaKey(&k)
+	return
+}
+
+//@ func verifKeyGbMaj
+//@ ensures [P:C15] ok && k.Key == 6 && k.Num == 6 && k.IsMajor == true && k.IsFlat == true
+
+func verifKeyAMin() (ok bool, k Key) {
+	m := AMin()
+	ok = m.GetMetaKey(&k)
+	return
+}
+
+//@ func verifKeyAMin
+//@ ensures [P:C15] ok && k.Key == 9 && k.Num == 0 && k.IsMajor == false && k.IsFlat == false
+
+func verifKeyEMin() (ok bool, k Key) {
+	m := EMin()
+	ok = m.GetMetaKey(&k)
+	return
+}
+
+//@ func verifKeyEMin
+//@ ensures [P:C15] ok && k.Key == 4 && k.Num == 1 && k.IsMajor == false && k.IsFlat == false
+
+func verifKeyBMin() (ok bool, k Key) {
+	m := BMin()
+	ok = m.GetMetaKey(&k)
+	return
+}
+
+//@ func verifKeyBMin
+//@ ensures [P:C15] ok && k.Key == 11 && k.Num == 2 && k.IsMajor == false && k.IsFlat == false
+
+func verifKeyFsharpMin() (ok bool, k Key) {
+	m := FsharpMin()
+	ok = m.GetMetaKey(&k)
+	return
+}
+
+//@ func verifKeyFsharpMin
+//@ ensures [P:C15] ok && k.Key == 6 && k.Num == 3 && k.IsMajor == false && k.IsFlat == false
+
+func verifKeyCsharpMin() (ok bool, k Key) {
+	m := CsharpMin()
+	ok = m.GetMetaKey(&k)
+	return
+}
+
+//@ func verifKeyCsharpMin
+//@ ensures [P:C15] ok && k.Key == 1 && k.Num == 4 && k.IsMajor == false && k.IsFlat == false
+
+func verifKeyGsharpMin() (ok bool, k Key) {
+	m := GsharpMin()
+	ok = m.GetMetaKey(&k)
+	return
+}
+
+//@ func verifKeyGsharpMin
+//@ ensures [P:C15] ok && k.Key == 8 && k.Num == 5 && k.IsMajor == false && k.IsFlat == false
+
+func verifKeyDsharpMin() (ok bool, k Key) {
+	m := DsharpMin()
+	ok = m.GetMetaKey(&k)
+	return
+}
+
+//@ func verifKeyDsharpMin
+//@ ensures [P:C15] ok && k.Key == 3 && k.Num == 6 && k.IsMajor == false && k.IsFlat == false
+
+func verifKeyDMin() (ok bool, k Key) {
+	m := DMin()
+	ok = m.GetMetaKey(&k)
+	return
+}
+
+//@ func verifKeyDMin
+//@ ensures [P:C15] ok && k.Key == 2 && k.Num == 1 && k.IsMajor == false && k.IsFlat == true
+
+func verifKeyGMin() (ok bool, k Key) {
+	m := GMin()
+	ok = m.GetMetaKey(&k)
+	return
+}
+
+//@ func verifKeyGMin
+//@ ensures [P:C15] ok && k.Key == 7 && k.Num == 2 && k.IsMajor == false && k.IsFlat == true
+
+func verifKeyCMin() (ok bool, k Key) {
+	m := CMin()
+	ok = m.GetMetaKey(&k)
+	return
+}
+
+//@ func verifKeyCMin
+//@ ensures [P:C15] ok && k.Key == 0 && k.Num == 3 && k.IsMajor == false && k.IsFlat == true
+
+func verifKeyFMin() (ok bool, k Key) {
+	m := FMin()
+	ok = m.GetMetaKey(&k)
+	return
+}
+
+//@ func verifKeyFMin
+//@ ensures [P:C15] ok && k.Key == 5 && k.Num == 4 && k.IsMajor == false && k.IsFlat == true
+
+func verifKeyBbMin() (ok bool, k Key) {
+	m := BbMin()
+	ok = m.GetMetaKey(&k)
+	return
+}
+
+//@ func verifKeyBbMin
+//@ ensures [P:C15] ok && k.Key == 10 && k.Num == 5 && k.IsMajor == false && k.IsFlat == true
+
+func verifKeyEbMin() (ok bool, k Key) {
+	m := EbMin()
+	ok = m.GetMetaKey(&k)
+	return
+}
+
+//@ func verifKeyEbMin
+//@ ensures [P:C15] ok && k.Key == 3 && k.Num == 6 && k.IsMajor == false && k.IsFlat == true
+
+// verifInverseMetaKey: all (accidentals 0..7, flat/sharp, major/minor) tuples
+func verifInverseMetaKey(num uint8, isMajor, isFlat bool) (ok bool, k Key) {
+	m := MetaKey(0, isMajor, num, isFlat)
+	ok = m.GetMetaKey(&k)
+	return
+}
+
+//@ func verifInverseMetaKey
+//@ requires num <= 7
+//@ ensures [P:C15] ok && k.Num == num && k.IsMajor == isMajor && (num > 0 ==> k.IsFlat == isFlat) && int(k.Key) == keyOf(isFlat ? 0 - int(num) : int(num), !isMajor)
+
+// fixed layouts
+func verifInverseFixed(a, b, c, d, e uint8, no uint16) (ok bool, ch, port uint8, seq uint16, h, mi, se, fr, ff uint8) {
+	ok = MetaChannel(a).GetMetaChannel(&ch) && MetaPort(b).GetMetaPort(&port) && MetaSequenceNo(no).GetMetaSeqNumber(&seq) && MetaSMPTE(a, b, c, d, e).GetMetaSMPTEOffsetMsg(&h, &mi, &se, &fr, &ff)
+	return
+}
+
+//@ func verifInverseFixed
+//@ ensures [P:C15] ok && ch == a && port == b && seq == no && h == a && mi == b && se == c && fr == d && ff == e
+
+// time signatures with power-of-two denominators up to 128; clock fields non-zero pass through, zero means 8
+func verifInverseTimeSig(num, denom, cpc, dsq uint8) (ok bool, n, d, c, q uint8) {
+	ok = MetaTimeSig(num, denom, cpc, dsq).GetMetaTimeSig(&n, &d, &c, &q)
+	return
+}
+
+//@ func verifInverseTimeSig
+//@ requires isPow2(denom)
+//@ ensures [P:C15] ok && n == num && d == denom && c == (cpc == 0 ? 8 : cpc) && q == (dsq == 0 ? 8 : dsq)
+
+func verifInverseMeter(num, denom uint8) (ok bool, n, d uint8) {
+	ok = MetaMeter(num, denom).GetMetaMeter(&n, &d)
+	return
+}
+
+//@ func verifInverseMeter
+//@ requires isPow2(denom)
+//@ ensures [P:C15] ok && n == num && d == denom
+
+// ---- tempo: FF 51 03 tt tt tt, microseconds per quarter note (float64 modelled as real numbers; the
+// float -> uint32 step is the uninterpreted f2u32 with its in-range axiom)
+//@ macro tempoField(m) = (uint32(m[3]) << 16) | (uint32(m[4]) << 8) | uint32(m[5])
+
+//@ func MetaTempo
+//@ uses mathRoundNear
+//@ requires bpm > 0.0
+//@ ensures [P:C15] fresh(result) && len(result) == 6 && result[0] == 0xFF && result[1] == 0x51 && result[2] == 3
+//@ ensures [P:C15] f2u32(mathRound(60000000.0 / bpm)) <= 0xFFFFFF ==> tempoField(result) == f2u32(mathRound(60000000.0 / bpm))
+
+//@ func (Message).GetMetaTempo
+//@ modifies *bpm
+//@ ensures [P:C08] is ==> smfTypeOf(len(m), m[0], m[1]) == MetaTempoMsg
+//@ ensures [P:C15] (len(m) == 6 && m[0] == 0xFF && m[1] == 0x51) ==> is
+//@ ensures [P:C15] (is && bpm != nil && len(m) == 6) ==> *bpm == bpmOf(tempoField(m))
+
+// verifInverseMetaTempo: every tempo whose microseconds-per-quarter value fits the 24 bit field comes back
+// within that field's resolution: 60000000/out is the rounded field value, at most 1/2 away from 60000000/bpm
+func verifInverseMetaTempo(bpm float64) (ok bool, out float64) {
+	ok = MetaTempo(bpm).GetMetaTempo(&out)
+	return
+}
+
+//@ func verifInverseMetaTempo
+//@ uses mathRoundNear, f2u32InRange
+//@ requires bpm > 0.0 && 60000000.0 / bpm >= 0.5 && 60000000.0 / bpm < 16777215.5
+//@ ensures [P:C15] ok
+//@ ensures [P:C15] mathRound(60000000.0 / bpm) >= 1.0 && mathRound(60000000.0 / bpm) < 16777216.0 && real(int(f2u32(mathRound(60000000.0 / bpm)))) == mathRound(60000000.0 / bpm)
+//@ ensures [P:C15] out == bpmOf(f2u32(mathRound(60000000.0 / bpm)))
+//@ ensures [P:C15] mathRound(60000000.0 / bpm) - 60000000.0 / bpm <= 0.5 && 60000000.0 / bpm - mathRound(60000000.0 / bpm) <= 0.5
+
+// ---------------------------------------------------------------- C08 for file-level messages
+
+// verifAtMostOneMeta: at most one type-specific meta accessor accepts a byte string (the wrappers GetMetaKey
+// and GetMetaMeter are views of GetMetaKeySig and GetMetaTimeSig)
+func verifAtMostOneMeta(m Message) (n int) {
+	if m.GetMetaChannel(nil) {
+		n++
+	}
+	if m.GetMetaPort(nil) {
+		n++
+	}
+	if m.GetMetaSeqNumber(nil) {
+		n++
+	}
+	if m.GetMetaSMPTEOffsetMsg(nil, nil, nil, nil, nil) {
+		n++
+	}
+	if m.GetMetaTimeSig(nil, nil, nil, nil) {
+		n++
+	}
+	if m.GetMetaKeySig(nil, nil, nil, nil) {
+		n++
+	}
+	if m.GetMetaSeqData(nil) {
+		n++
+	}
+	if m.GetMetaTempo(nil) {
+		n++
+	}
+	if m.GetMetaLyric(nil) {
+		n++
+	}
+	if m.GetMetaCopyright(nil) {
+		n++
+	}
+	if m.GetMetaCuepoint(nil) {
+		n++
+	}
+	if m.GetMetaDevice(nil) {
+		n++
+	}
+	if m.GetMetaInstrument(nil) {
+		n++
+	}
+	if m.GetMetaMarker(nil) {
+		n++
+	}
+	if m.GetMetaProgramName(nil) {
+		n++
+	}
+	if m.GetMetaText(nil) {
+		n++
+	}
+	if m.GetMetaTrackName(nil) {
+		n++
+	}
+	return n
+}
+
+//@ func verifAtMostOneMeta
+//@ ensures [P:C08] n <= 1
+
+// verifPartitionSMF: every file-level message is in exactly one of channel / system common / real-time /
+// sysex / unknown / meta
+func verifPartitionSMF(m Message) (n int) {
+	if m.Is(midi.ChannelMsg) {
+		n++
+	}
+	if m.Is(midi.SysCommonMsg) {
+		n++
+	}
+	if m.Is(midi.RealTimeMsg) {
+		n++
+	}
+	if m.Is(midi.SysExMsg) {
+		n++
+	}
+	if m.Is(midi.UnknownMsg) {
+		n++
+	}
+	if m.Is(MetaMsg) {
+		n++
+	}
+	return n
+}
+
+//@ func verifPartitionSMF
+//@ ensures [P:C08] n == 1
